@@ -92,7 +92,7 @@ func leanStr(s string) string {
 		case r >= 0x20 && r < 0x7f:
 			b.WriteRune(r)
 		default:
-			fmt.Fprintf(&b, "\\u{%x}", r)
+			b.WriteByte('?') // documentation text only: keep the generated file plain ASCII
 		}
 	}
 	b.WriteByte('"')
@@ -886,6 +886,110 @@ func (p *pkg) handlerFactOf(name string) handlerFact {
 	return hf
 }
 
+// ---------------------------------------------------------------- the gate itself
+
+type retFact struct {
+	conds []string
+	expr  string
+}
+
+type gateFact struct {
+	found         bool
+	ctxVar        string // identifiers bound by `ctx, err := recv.authenticateFunc(r)`
+	errVar        string
+	callTopLevel  bool // that assignment is a top-level statement of the body
+	errBranchExit bool // the top-level `if err != nil { ... }` right after it ends in `return nil`
+	returns       []retFact
+}
+
+// gateFactOf describes HttpServer.authenticate: every return statement with the conditions guarding
+// it, and the shape "call the authenticator; if err != nil { ...; return nil }; return ctx".
+func (p *pkg) gateFactOf() gateFact {
+	g := gateFact{}
+	fd := p.meths["authenticate"]
+	if fd == nil || fd.Body == nil {
+		return g
+	}
+	g.found = true
+	recv, _ := recvIsHttpServer(fd)
+	// conditions are rendered with the receiver called `h`, whatever the source calls it
+	norm := func(s string) string {
+		if recv != "h" && recv != "_" {
+			return strings.ReplaceAll(" "+s, " "+recv+".", " h.")[1:]
+		}
+		return s
+	}
+	var walk func(stmts []ast.Stmt, conds []string)
+	walk = func(stmts []ast.Stmt, conds []string) {
+		for _, s := range stmts {
+			switch s := s.(type) {
+			case *ast.ReturnStmt:
+				var parts []string
+				for _, r := range s.Results {
+					parts = append(parts, render(r))
+				}
+				g.returns = append(g.returns, retFact{append([]string{}, conds...), strings.Join(parts, ", ")})
+			case *ast.BlockStmt:
+				walk(s.List, conds)
+			case *ast.IfStmt:
+				ct := norm(render(s.Cond))
+				if s.Init != nil {
+					ct = norm(render(s.Init)) + "; " + ct
+				}
+				walk(s.Body.List, append(append([]string{}, conds...), ct))
+				if s.Else != nil {
+					walk([]ast.Stmt{s.Else}, append(append([]string{}, conds...), "!("+ct+")"))
+				}
+			case *ast.ForStmt:
+				walk(s.Body.List, append(append([]string{}, conds...), "<for>"))
+			case *ast.RangeStmt:
+				walk(s.Body.List, append(append([]string{}, conds...), "<range>"))
+			case *ast.SwitchStmt:
+				walk(s.Body.List, append(append([]string{}, conds...), "<switch>"))
+			case *ast.TypeSwitchStmt:
+				walk(s.Body.List, append(append([]string{}, conds...), "<switch>"))
+			case *ast.CaseClause:
+				walk(s.Body, append(append([]string{}, conds...), "<case>"))
+			case *ast.LabeledStmt:
+				walk([]ast.Stmt{s.Stmt}, conds)
+			}
+		}
+	}
+	walk(fd.Body.List, nil)
+	for i, s := range fd.Body.List {
+		as, ok := s.(*ast.AssignStmt)
+		if !ok || len(as.Lhs) != 2 || len(as.Rhs) != 1 {
+			continue
+		}
+		c, ok := as.Rhs[0].(*ast.CallExpr)
+		if !ok {
+			continue
+		}
+		se, ok := c.Fun.(*ast.SelectorExpr)
+		if !ok || se.Sel.Name != "authenticateFunc" {
+			continue
+		}
+		if id, ok := se.X.(*ast.Ident); !ok || id.Name != recv {
+			continue
+		}
+		a, ok1 := as.Lhs[0].(*ast.Ident)
+		b, ok2 := as.Lhs[1].(*ast.Ident)
+		if !ok1 || !ok2 {
+			continue
+		}
+		g.ctxVar, g.errVar, g.callTopLevel = a.Name, b.Name, true
+		if i+1 < len(fd.Body.List) {
+			if ifs, ok := fd.Body.List[i+1].(*ast.IfStmt); ok && ifs.Init == nil && ifs.Else == nil &&
+				render(ifs.Cond) == b.Name+" != nil" && len(ifs.Body.List) > 0 {
+				if rs, ok := ifs.Body.List[len(ifs.Body.List)-1].(*ast.ReturnStmt); ok && len(rs.Results) == 1 && render(rs.Results[0]) == "nil" {
+					g.errBranchExit = true
+				}
+			}
+		}
+	}
+	return g
+}
+
 func main() {
 	repo := flag.String("repo", "/repo", "")
 	out := flag.String("out", "", "")
@@ -973,7 +1077,7 @@ func main() {
 		var ts []string
 		for _, t := range hf.texts {
 			if len(t) > 160 {
-				t = t[:160] + "…"
+				t = t[:160] + "..."
 			}
 			ts = append(ts, leanStr(t))
 		}
@@ -994,7 +1098,25 @@ func main() {
 	}
 	b.WriteString(strings.Join(ds, ",\n"))
 	b.WriteString("\n]\n\n")
-	b.WriteString("def table : Table := { routes := routes, handlers := handlers, direct := direct }\n\n")
+	gf := p.gateFactOf()
+	if !gf.found {
+		die("HttpServer.authenticate not found")
+	}
+	b.WriteString("/-- `HttpServer.authenticate`: its return statements with their guards, and its call shape -/\n")
+	b.WriteString("def gate : GateFact := {\n")
+	fmt.Fprintf(&b, "  ctxVar := %s, errVar := %s, callTopLevel := %v, errBranchExit := %v,\n  returns := [\n",
+		leanStr(gf.ctxVar), leanStr(gf.errVar), gf.callTopLevel, gf.errBranchExit)
+	var rs []string
+	for _, r := range gf.returns {
+		var cs []string
+		for _, c := range r.conds {
+			cs = append(cs, leanStr(c))
+		}
+		rs = append(rs, fmt.Sprintf("    { conds := [%s], expr := %s }", strings.Join(cs, ", "), leanStr(r.expr)))
+	}
+	b.WriteString(strings.Join(rs, ",\n"))
+	b.WriteString("\n  ] }\n\n")
+	b.WriteString("def table : Table := { routes := routes, handlers := handlers, direct := direct, gate := gate }\n\n")
 	b.WriteString("end Vgi.Generated.C22\n")
 	if err := os.WriteFile(*out, []byte(b.String()), 0o644); err != nil {
 		die("%v", err)
